@@ -31,8 +31,11 @@ func c17Keys() []string {
 
 func TestC17Sequential(t *testing.T) {
 	rec := evid.For("C17")
-	h, _ := inmem.New()
 	rapid.Check(t, func(t *rapid.T) {
+		// every connection of a server asks for the backend (New) and closes it when
+		// the client leaves; the data is the process's, not the connection's
+		h, _ := inmem.New()
+		defer func() { h.Close() }()
 		keys := c17Keys()
 		model := refmodel.New()
 		n := rapid.IntRange(1, 40).Draw(t, "steps")
@@ -40,6 +43,12 @@ func TestC17Sequential(t *testing.T) {
 		var fp strings.Builder
 		nt := false
 		for i := 0; i < n; i++ {
+			if rapid.IntRange(0, 9).Draw(t, "reconnect") == 0 {
+				h.Close()
+				h, _ = inmem.New()
+				cmds = append(cmds, wire.Cmd{Kind: wire.RawBytes, Raw: []byte("[client reconnects: Close, New]")})
+				fp.WriteString("|R")
+			}
 			now := nowUnix()
 			kind := rapid.SampledFrom([]wire.Kind{wire.Set, wire.Add, wire.Add, wire.Replace, wire.Append, wire.Prepend, wire.Delete, wire.Delete, wire.Touch, wire.Get, wire.Gat}).Draw(t, "kind")
 			c := wire.Cmd{Kind: kind}
